@@ -1335,7 +1335,10 @@ class String(ConstantOpcode):
     priority = Unicode.priority + 1
 
     def encode_body(self) -> bytes:
-        return repr(self.arg).encode("utf-8")
+        # a quoted, backslash-escaped, newline-terminated Python 2 str literal; readers
+        # escape-decode it and decode the result as ASCII, so only ASCII text is representable
+        self.arg.encode("ascii")
+        return repr(self.arg).encode("ascii") + b"\n"
 
     @classmethod
     def validate(cls, obj):
